@@ -706,6 +706,28 @@ func propC12BSI(t *rapid.T) {
 				}
 			}
 		}
+		// the other way round: a wide target, narrow operands (most planes have nothing to merge), few workers
+		for _, w := range []int{1, 2, workers} {
+			t32 := bsi32.NewDefaultBSI()
+			t32.SetValue(4, 1<<40|3)
+			t32.SetValue(8, 6)
+			o32 := bsi32.NewDefaultBSI()
+			o32.SetValue(70000, 5)
+			t32.ParOr(w, o32)
+			for c, wv := range map[uint64]int64{4: 1<<40 | 3, 8: 6, 70000: 5} {
+				if g, ok := t32.GetValue(c); !ok || g != wv {
+					panic(fmt.Sprintf("BSI32 ParOr(%d) of a 41-plane target with a 3-plane operand: column %d reads (%d,%v) want %d", w, c, g, ok, wv))
+				}
+			}
+			t64 := roaring64.NewDefaultBSI()
+			t64.SetValue(4, 1<<40|3)
+			o64b := roaring64.NewDefaultBSI()
+			o64b.SetValue(1<<35, 5)
+			t64.ParOr(w, o64b)
+			if g, ok := t64.GetValue(1 << 35); !ok || g != 5 {
+				panic(fmt.Sprintf("BSI64 ParOr(%d) of a wide target with a narrow operand: column 2^35 reads (%d,%v) want 5", w, g, ok))
+			}
+		}
 		r := b64.NewBSIRetainSet(g64)
 		if r.GetCardinality() != uint64(len(wantGE)) {
 			panic("BSI64 NewBSIRetainSet cardinality")
